@@ -392,3 +392,569 @@ Proof.
   intros Hf. destruct (id_lookup_exactly known f D Hf) as (P & He & Hs & HD & _).
   exact (envl_same known P D f He Hs HD).
 Qed.
+
+(* ---------- Section.address / Section.size ---------- *)
+
+Theorem sec_extent_struct known w1 w2 s : GoodK known w1 -> GoodK known w2 -> strip w1 = strip w2 ->
+  kindof w1 s = KSec -> snd (sec_extent w1 s) = snd (sec_extent w2 s).
+Proof.
+  intros (F1 & S1 & _) (F2 & S2 & _) E K1.
+  assert (K2 : kindof w2 s = KSec) by (rewrite <- (strip_kindof w1 w2 s E); exact K1).
+  rewrite (sec_extent_exact w1 known s F1 S1 K1), (sec_extent_exact w2 known s F2 S2 K2).
+  apply strip_ext_pure. exact E.
+Qed.
+
+(* ---------- sections_on / sections_at: even the lists coincide ---------- *)
+
+Lemma sections_gen_struct known t w1 w2 secs : GoodK known w1 -> GoodK known w2 -> strip w1 = strip w2 ->
+  (forall s, In s secs -> kindof w1 s = KSec) ->
+  snd (sections_gen t w1 secs) = snd (sections_gen t w2 secs).
+Proof.
+  intros G1 G2 E K1.
+  assert (K2 : forall s, In s secs -> kindof w2 s = KSec).
+  { intros s Hs. rewrite <- (strip_kindof w1 w2 s E). exact (K1 s Hs). }
+  destruct (sections_gen_spec known t w1 secs G1 K1) as (_ & _ & E1).
+  destruct (sections_gen_spec known t w2 secs G2 K2) as (_ & _ & E2).
+  rewrite E1, E2. apply filter_ext. intros s. unfold ext_test.
+  rewrite (strip_ext_pure w1 w2 s E). reflexivity.
+Qed.
+
+Theorem sections_on_struct known w1 w2 secs q : GoodK known w1 -> GoodK known w2 -> strip w1 = strip w2 ->
+  (forall s, In s secs -> kindof w1 s = KSec) ->
+  snd (sections_on w1 secs q) = snd (sections_on w2 secs q).
+Proof. intros G1 G2 E K1. rewrite !sections_on_gen. exact (sections_gen_struct known _ w1 w2 secs G1 G2 E K1). Qed.
+
+Theorem sections_at_struct known w1 w2 secs q : GoodK known w1 -> GoodK known w2 -> strip w1 = strip w2 ->
+  (forall s, In s secs -> kindof w1 s = KSec) ->
+  snd (sections_at w1 secs q) = snd (sections_at w2 secs q).
+Proof. intros G1 G2 E K1. rewrite !sections_at_gen. exact (sections_gen_struct known _ w1 w2 secs G1 G2 E K1). Qed.
+
+(* the two scopes the API has *)
+Definition ir_secs (w : world) (ir : id) : list id := flat_map (secs_of w) (mods_of w ir).
+
+Lemma ir_secs_kind w ir s : In s (ir_secs w ir) -> kindof w s = KSec.
+Proof.
+  unfold ir_secs. rewrite in_flat_map. intros [m [_ Hs]]. exact (secs_of_kind w m s Hs).
+Qed.
+
+Lemma strip_ir_secs w1 w2 ir : strip w1 = strip w2 -> ir_secs w1 ir = ir_secs w2 ir.
+Proof.
+  intros E. unfold ir_secs. rewrite (strip_mods_of w1 w2 ir E).
+  apply flat_map_ext_eq. intros m. apply strip_secs_of. exact E.
+Qed.
+
+Lemma ir_secs_NoDup known w ir : GoodK known w -> NoDup (ir_secs w ir).
+Proof.
+  intros HG. unfold ir_secs. pose proof (mods_of_NoDup known w ir HG) as Hn.
+  induction (mods_of w ir) as [|m l IH]; [constructor|].
+  inversion Hn as [|m' l' Hm Hn']; subst m' l'. cbn [flat_map].
+  apply LookupBase.NoDup_app_intro; [exact (secs_of_NoDup known w m HG)|exact (IH Hn')|].
+  intros s H1 H2. apply in_flat_map in H2. destruct H2 as [m2 [Hm2 H2]].
+  assert (Em : m = m2) by exact (secs_of_inj known w m m2 s HG H1 H2). subst m2. exact (Hm Hm2).
+Qed.
+
+Theorem mod_sections_on_struct known w1 w2 m q : GoodK known w1 -> GoodK known w2 -> strip w1 = strip w2 ->
+  snd (sections_on w1 (secs_of w1 m) q) = snd (sections_on w2 (secs_of w2 m) q).
+Proof.
+  intros G1 G2 E. rewrite <- (strip_secs_of w1 w2 m E).
+  apply (sections_on_struct known w1 w2 _ q G1 G2 E). intros s Hs. exact (secs_of_kind w1 m s Hs).
+Qed.
+
+Theorem mod_sections_at_struct known w1 w2 m q : GoodK known w1 -> GoodK known w2 -> strip w1 = strip w2 ->
+  snd (sections_at w1 (secs_of w1 m) q) = snd (sections_at w2 (secs_of w2 m) q).
+Proof.
+  intros G1 G2 E. rewrite <- (strip_secs_of w1 w2 m E).
+  apply (sections_at_struct known w1 w2 _ q G1 G2 E). intros s Hs. exact (secs_of_kind w1 m s Hs).
+Qed.
+
+Theorem ir_sections_on_struct known w1 w2 ir q : GoodK known w1 -> GoodK known w2 -> strip w1 = strip w2 ->
+  snd (sections_on w1 (flat_map (secs_of w1) (mods_of w1 ir)) q) =
+  snd (sections_on w2 (flat_map (secs_of w2) (mods_of w2 ir)) q).
+Proof.
+  intros G1 G2 E. fold (ir_secs w1 ir). fold (ir_secs w2 ir). rewrite <- (strip_ir_secs w1 w2 ir E).
+  apply (sections_on_struct known w1 w2 _ q G1 G2 E). intros s Hs. exact (ir_secs_kind w1 ir s Hs).
+Qed.
+
+Theorem ir_sections_at_struct known w1 w2 ir q : GoodK known w1 -> GoodK known w2 -> strip w1 = strip w2 ->
+  snd (sections_at w1 (flat_map (secs_of w1) (mods_of w1 ir)) q) =
+  snd (sections_at w2 (flat_map (secs_of w2) (mods_of w2 ir)) q).
+Proof.
+  intros G1 G2 E. fold (ir_secs w1 ir). fold (ir_secs w2 ir). rewrite <- (strip_ir_secs w1 w2 ir E).
+  apply (sections_at_struct known w1 w2 _ q G1 G2 E). intros s Hs. exact (ir_secs_kind w1 ir s Hs).
+Qed.
+
+(* the answers are duplicate free as well *)
+Lemma sections_on_NoDup known w secs q : GoodK known w -> NoDup secs ->
+  (forall s, In s secs -> kindof w s = KSec) -> NoDup (snd (sections_on w secs q)).
+Proof. intros HG Hn HK. exact (proj1 (sections_on_exact known w secs q HG Hn HK)). Qed.
+Lemma sections_at_NoDup known w secs q : GoodK known w -> NoDup secs ->
+  (forall s, In s secs -> kindof w s = KSec) -> NoDup (snd (sections_at w secs q)).
+Proof. intros HG Hn HK. exact (proj1 (sections_at_exact known w secs q HG Hn HK)). Qed.
+
+(* ---------- symbolic expressions ---------- *)
+
+Theorem bi_symx_at_struct w1 w2 bi q : strip w1 = strip w2 -> bi_symx_at w1 bi q = bi_symx_at w2 bi q.
+Proof. intros E. rewrite (seq_repr w1 w2 E). reflexivity. Qed.
+
+Theorem bi_symx_at_off_struct w1 w2 bi q : strip w1 = strip w2 ->
+  bi_symx_at_off w1 bi q = bi_symx_at_off w2 bi q.
+Proof. intros E. rewrite (seq_repr w1 w2 E). reflexivity. Qed.
+
+Theorem sec_symx_at_struct known w1 w2 s q : GoodK known w1 -> GoodK known w2 -> strip w1 = strip w2 ->
+  kindof w1 s = KSec ->
+  same_elems (snd (sec_symx_at w1 s q)) (snd (sec_symx_at w2 s q)).
+Proof.
+  intros G1 G2 E K1.
+  destruct (lookup_struct known sec_bis_on Dsec (IL_sec _ SL_bis_on) w1 w2 s q G1 G2 E K1) as (Hs & _ & _).
+  rewrite !sec_symx_at_unfold. cbn [snd].
+  pose proof (lookup_strip_sec_bis_on w1 s q) as E1. pose proof (lookup_strip_sec_bis_on w2 s q) as E2.
+  assert (E12 : strip (fst (sec_bis_on w1 s q)) = strip (fst (sec_bis_on w2 s q))) by congruence.
+  intros t. unfold symx_over. rewrite !in_flat_map.
+  split; intros [bi [Hb Ht]]; exists bi.
+  - split; [apply (Hs bi); exact Hb|]. rewrite <- (bi_symx_at_struct _ _ bi q E12). exact Ht.
+  - split; [apply (Hs bi); exact Hb|]. rewrite (bi_symx_at_struct _ _ bi q E12). exact Ht.
+Qed.
+
+(* ---------- the kind filter of the query interface (blocks / code_blocks / data_blocks) ---------- *)
+
+Lemma kfilter_struct w1 w2 kf a b : strip w1 = strip w2 -> same_set a b ->
+  same_set (kfilter w1 kf a) (kfilter w2 kf b).
+Proof.
+  intros E H x. unfold kfilter.
+  destruct kf as [|p|p]; [apply H| |apply H].
+  destruct p as [p|p|]; [apply H| |].
+  - destruct p as [p|p|]; [apply H|apply H|].
+    rewrite !filter_In, (strip_kindof w1 w2 x E), (H x). tauto.
+  - rewrite !filter_In, (strip_kindof w1 w2 x E), (H x). tauto.
+Qed.
+
+Lemma kfilter_NoDup w kf a : NoDup a -> NoDup (kfilter w kf a).
+Proof.
+  intros H. unfold kfilter.
+  destruct kf as [|p|p]; [exact H| |exact H].
+  destruct p as [p|p|]; [exact H| |apply NoDup_filter; exact H].
+  destruct p as [p|p|]; [exact H|exact H|apply NoDup_filter; exact H].
+Qed.
+
+(* ---------- all the answers at once ---------- *)
+
+Record same_answers (w1 w2 : world) : Prop := {
+  sa_ids : forall f D, id_lookup f D -> forall x q, D w1 x ->
+             same_set (snd (f w1 x q)) (snd (f w2 x q)) /\
+             NoDup (snd (f w1 x q)) /\ NoDup (snd (f w2 x q));
+  sa_extent : forall s, kindof w1 s = KSec -> snd (sec_extent w1 s) = snd (sec_extent w2 s);
+  sa_mod_sections_on : forall m q,
+             snd (sections_on w1 (secs_of w1 m) q) = snd (sections_on w2 (secs_of w2 m) q);
+  sa_mod_sections_at : forall m q,
+             snd (sections_at w1 (secs_of w1 m) q) = snd (sections_at w2 (secs_of w2 m) q);
+  sa_ir_sections_on : forall ir q,
+             snd (sections_on w1 (flat_map (secs_of w1) (mods_of w1 ir)) q) =
+             snd (sections_on w2 (flat_map (secs_of w2) (mods_of w2 ir)) q);
+  sa_ir_sections_at : forall ir q,
+             snd (sections_at w1 (flat_map (secs_of w1) (mods_of w1 ir)) q) =
+             snd (sections_at w2 (flat_map (secs_of w2) (mods_of w2 ir)) q);
+  sa_bi_symx_at : forall bi q, bi_symx_at w1 bi q = bi_symx_at w2 bi q;
+  sa_bi_symx_at_off : forall bi q, bi_symx_at_off w1 bi q = bi_symx_at_off w2 bi q;
+  sa_sec_symx_at : forall s q, kindof w1 s = KSec ->
+             same_elems (snd (sec_symx_at w1 s q)) (snd (sec_symx_at w2 s q));
+  sa_symbols_named : forall m nm, symbols_named w1 m nm = symbols_named w2 m nm;
+  sa_references : forall b, references w1 b = references w2 b;
+  sa_get_by_uuid : forall ir u, get_by_uuid w1 ir u = get_by_uuid w2 ir u
+}.
+
+Theorem answers_struct known w1 w2 : GoodK known w1 -> GoodK known w2 -> strip w1 = strip w2 ->
+  same_answers w1 w2.
+Proof.
+  intros G1 G2 E. constructor.
+  - intros f D Hf x q HD. exact (lookup_struct known f D Hf w1 w2 x q G1 G2 E HD).
+  - intros s. exact (sec_extent_struct known w1 w2 s G1 G2 E).
+  - intros m q. exact (mod_sections_on_struct known w1 w2 m q G1 G2 E).
+  - intros m q. exact (mod_sections_at_struct known w1 w2 m q G1 G2 E).
+  - intros ir q. exact (ir_sections_on_struct known w1 w2 ir q G1 G2 E).
+  - intros ir q. exact (ir_sections_at_struct known w1 w2 ir q G1 G2 E).
+  - intros bi q. exact (bi_symx_at_struct w1 w2 bi q E).
+  - intros bi q. exact (bi_symx_at_off_struct w1 w2 bi q E).
+  - intros s q. exact (sec_symx_at_struct known w1 w2 s q G1 G2 E).
+  - intros m nm. exact (strip_symbols_named w1 w2 m nm E).
+  - intros b. exact (strip_references w1 w2 b E).
+  - intros ir u. exact (strip_get_by_uuid w1 w2 ir u E).
+Qed.
+
+(* ================================================================== *)
+(** * 4. schedules with arbitrary lookups *)
+
+Inductive item := IOp (o : op) | IQuery (scope : id) (m kf : Z) (q : qrange).
+
+Fixpoint run_sched (w : world) (known : list id) (its : list item) : world * list id :=
+  match its with
+  | [] => (w, known)
+  | IOp o :: r => if op_okb w known o then run_sched (step' w o) (known_after o known) r else run_sched w known r
+  | IQuery s m kf q :: r => run_sched (fst (query w s m kf q)) known r
+  end.
+
+Definition ops_of (its : list item) : list op :=
+  flat_map (fun i => match i with IOp o => if is_touch o then [] else [o] | IQuery _ _ _ _ => [] end) its.
+
+(* ---------- a query only forces trees ---------- *)
+
+Definition symx_fold_step (q : qrange) (st : world * list (id * Z * id)) (s : id) : world * list (id * Z * id) :=
+  let '(w, acc) := st in let '(w', r) := sec_symx_at w s q in (w', acc ++ r).
+
+Lemma lk_symx_fold q l : forall w acc, lk w (fst (fold_left (symx_fold_step q) l (w, acc))).
+Proof.
+  induction l as [|s l IH]; intros w acc; [apply lk_refl|].
+  cbn [fold_left]. unfold symx_fold_step at 2.
+  pose proof (lk_sec_symx_at w s q) as H. destruct (sec_symx_at w s q) as [w' r]. cbn [fst] in H.
+  eapply lk_trans; [exact H|apply IH].
+Qed.
+
+Lemma lk_let_pair {X Y : Type} (w : world) (x : world * X) (g : X -> Y) :
+  lk w (fst x) -> lk w (fst (let '(w1, r) := x in (w1, g r))).
+Proof. destruct x as [w1 r]. exact (fun H => H). Qed.
+
+Ltac lk_fun :=
+  lazymatch goal with
+  | |- lookup_ok sec_blocks_on => exact lk_sec_blocks_on
+  | |- lookup_ok sec_blocks_at => exact lk_sec_blocks_at
+  | |- lookup_ok sec_bis_on => exact lk_sec_bis_on
+  | |- lookup_ok sec_bis_at => exact lk_sec_bis_at
+  end.
+
+Ltac lk_leaf q :=
+  lazymatch goal with
+  | |- lk ?w ?w => apply lk_refl
+  | |- lk _ (fst (bi_blocks_on _ _ _)) => apply lk_bi_blocks_on
+  | |- lk _ (fst (bi_blocks_at _ _ _)) => apply lk_bi_blocks_at
+  | |- lk _ (fst (bi_blocks_on_off _ _ _)) => apply lk_bi_blocks_on_off
+  | |- lk _ (fst (bi_blocks_at_off _ _ _)) => apply lk_bi_blocks_at_off
+  | |- lk _ (fst (sec_blocks_on _ _ _)) => apply lk_sec_blocks_on
+  | |- lk _ (fst (sec_blocks_at _ _ _)) => apply lk_sec_blocks_at
+  | |- lk _ (fst (sec_bis_on _ _ _)) => apply lk_sec_bis_on
+  | |- lk _ (fst (sec_bis_at _ _ _)) => apply lk_sec_bis_at
+  | |- lk _ (fst (mod_lift _ _ _ _)) => apply lk_mod_lift; lk_fun
+  | |- lk _ (fst (ir_lift _ _ _ _)) => apply lk_ir_lift; lk_fun
+  | |- lk _ (fst (sections_on _ _ _)) => apply lk_sections_on
+  | |- lk _ (fst (sections_at _ _ _)) => apply lk_sections_at
+  | |- _ => apply lk_let_pair;
+            first [apply lk_sec_symx_at | apply lk_sec_extent | apply (lk_symx_fold q)]
+  end.
+
+(* one method of [query]: reduce the dispatch, split on the kind of the scope if it is consulted *)
+Ltac query_leaf w s q :=
+  cbv beta iota zeta; cbn [fst];
+  lazymatch goal with
+  | |- lk _ (fst (match kindof _ _ with KIR => _ | _ => _ end)) =>
+      destruct (kindof w s); cbn [fst]; lk_leaf q
+  | |- _ => lk_leaf q
+  end.
+
+Lemma query_lk_aux : forall w s m kf q, lk w (fst (query w s m kf q)).
+Proof.
+  intros w s m kf q. unfold query.
+  destruct m as [|p|p];
+    try (destruct p as [p|p|];
+         try (destruct p as [p|p|];
+              try (destruct p as [p|p|];
+                   try (destruct p as [p|p|]))));
+    query_leaf w s q.
+Qed.
+
+Theorem query_lk : forall w s m kf q,
+  strip (fst (query w s m kf q)) = strip w /\ (SyncAll w -> SyncAll (fst (query w s m kf q))).
+Proof. exact query_lk_aux. Qed.
+
+(* a query preserves the premises of the lookup theorems *)
+Lemma lk_good known w w' : lk w w' -> GoodK known w -> GoodK known w'.
+Proof.
+  intros [E HS] (F & S & N). split; [|split].
+  - apply (strip_forest w w' known); [symmetry; exact E|exact F].
+  - exact (HS S).
+  - exact (strip_nonneg w w' E N).
+Qed.
+
+Lemma query_good known w s m kf q : GoodK known w -> GoodK known (fst (query w s m kf q)).
+Proof. apply lk_good. apply query_lk_aux. Qed.
+
+(* ... and the whole invariant of InvDefs: only [SyncAll] reads the trees *)
+Lemma lk_inv known w w' : lk w w' -> Inv w known -> Inv w' known.
+Proof.
+  intros [E HS] [F C X S N O]. pose proof (HS S) as S'.
+  assert (E' : strip w = strip w') by (symmetry; exact E).
+  rewrite (seq_repr w w' E') in S' |- *.
+  constructor; [|exact C|exact X|exact S'|exact N|exact O].
+  apply (agree_Forest w); [apply agree_set_tree|exact F].
+Qed.
+
+Lemma query_inv known w s m kf q : Inv w known -> Inv (fst (query w s m kf q)) known.
+Proof. apply lk_inv. apply query_lk_aux. Qed.
+
+(* ---------- schedules and guarded histories ---------- *)
+
+Lemma run_sched_ops_gen : forall ops w known, run_sched w known (map IOp ops) = run_guarded w known ops.
+Proof.
+  induction ops as [|o ops IH]; intros w known; [reflexivity|].
+  cbn [map run_sched run_guarded]. rewrite !IH. reflexivity.
+Qed.
+
+Theorem run_sched_ops : forall ops, run_sched w0 [] (map IOp ops) = run_guarded w0 [] ops.
+Proof. intros ops. apply run_sched_ops_gen. Qed.
+
+Lemma ops_of_cons i its :
+  ops_of (i :: its) =
+  match i with IOp o => if is_touch o then [] else [o] | IQuery _ _ _ _ => [] end ++ ops_of its.
+Proof. reflexivity. Qed.
+
+(* a schedule ends, up to the trees, where the guarded history of its proper operations ends *)
+Lemma run_sched_guarded : forall its w1 w2 known, strip w1 = strip w2 ->
+  strip (fst (run_sched w1 known its)) = strip (fst (run_guarded w2 known (ops_of its))) /\
+  snd (run_sched w1 known its) = snd (run_guarded w2 known (ops_of its)).
+Proof.
+  induction its as [|i its IH]; intros w1 w2 known H.
+  - split; [exact H|reflexivity].
+  - rewrite ops_of_cons. destruct i as [o|s m kf q].
+    + cbn [run_sched]. destruct (is_touch o) eqn:T.
+      * cbn [app]. destruct o; try discriminate T.
+        destruct (op_okb w1 known (OTouch n)); [|apply IH; exact H].
+        cbn [known_after]. apply IH. rewrite touch_strip. exact H.
+      * cbn [app run_guarded]. destruct (step_strip w1 w2 o H T) as [Hs Hg]. rewrite (Hg known).
+        destruct (op_okb w2 known o); [|apply IH; exact H].
+        apply (IH (step' w1 o) (step' w2 o) (known_after o known)). exact Hs.
+    + cbn [run_sched app]. apply IH. rewrite (proj1 (query_lk w1 s m kf q)). exact H.
+Qed.
+
+Theorem schedule_independent_struct : forall its1 its2, ops_of its1 = ops_of its2 ->
+  strip (fst (run_sched w0 [] its1)) = strip (fst (run_sched w0 [] its2)) /\
+  snd (run_sched w0 [] its1) = snd (run_sched w0 [] its2).
+Proof.
+  intros its1 its2 E.
+  destruct (run_sched_guarded its1 w0 w0 [] eq_refl) as [A1 B1].
+  destruct (run_sched_guarded its2 w0 w0 [] eq_refl) as [A2 B2].
+  rewrite E in A1, B1. split; congruence.
+Qed.
+
+(* the same from any two starting points of equal structure *)
+Theorem schedule_independent_struct_gen : forall its1 its2 w1 w2 known,
+  strip w1 = strip w2 -> ops_of its1 = ops_of its2 ->
+  strip (fst (run_sched w1 known its1)) = strip (fst (run_sched w2 known its2)) /\
+  snd (run_sched w1 known its1) = snd (run_sched w2 known its2).
+Proof.
+  intros its1 its2 w1 w2 known H E.
+  destruct (run_sched_guarded its1 w1 w2 known H) as [A1 B1].
+  destruct (run_sched_guarded its2 w2 w2 known eq_refl) as [A2 B2].
+  rewrite E in A1, B1. split; congruence.
+Qed.
+
+Lemma ops_of_not_touch : forall its o, In o (ops_of its) -> is_touch o = false.
+Proof.
+  induction its as [|i its IH]; intros o H; [destruct H|].
+  rewrite ops_of_cons in H. apply in_app_or in H. destruct H as [H|H]; [|exact (IH o H)].
+  destruct i as [o'|s m kf q]; [|destruct H].
+  destruct (is_touch o') eqn:T; [destruct H|]. destruct H as [H|[]]. subst o'. exact T.
+Qed.
+
+Lemma ops_of_map_IOp : forall l, (forall o, In o l -> is_touch o = false) -> ops_of (map IOp l) = l.
+Proof.
+  induction l as [|o l IH]; intros H; [reflexivity|].
+  cbn [map]. rewrite ops_of_cons. rewrite (H o (or_introl eq_refl)). cbn [app]. f_equal.
+  apply IH. intros o' Ho'. apply H. right. exact Ho'.
+Qed.
+
+Lemma ops_of_idem : forall its, ops_of (map IOp (ops_of its)) = ops_of its.
+Proof. intros its. apply ops_of_map_IOp. apply ops_of_not_touch. Qed.
+
+(* ---------- invariants along a schedule, and the property ---------- *)
+
+Section Schedule.
+  Variable P : world -> list id -> Prop.
+  Hypothesis HP : forall w known, P w known -> Forest w known /\ SyncAll w /\ NonNeg w.
+  Hypothesis Hstep : forall w known o, P w known -> op_okb w known o = true ->
+    P (step' w o) (known_after o known).
+  Hypothesis Hq : forall w known s m kf q, P w known -> P (fst (query w s m kf q)) known.
+
+  Lemma run_sched_inv_gen : forall its w known, P w known ->
+    P (fst (run_sched w known its)) (snd (run_sched w known its)).
+  Proof.
+    induction its as [|i its IH]; intros w known H; [exact H|].
+    destruct i as [o|s m kf q]; cbn [run_sched].
+    - destruct (op_okb w known o) eqn:G; [|apply IH; exact H].
+      apply IH. apply Hstep; assumption.
+    - apply IH. apply Hq. exact H.
+  Qed.
+
+  Theorem run_sched_inv : forall its, P w0 [] ->
+    P (fst (run_sched w0 [] its)) (snd (run_sched w0 [] its)).
+  Proof. intros its H0. apply run_sched_inv_gen. exact H0. Qed.
+
+  Lemma P_good w known : P w known -> GoodK known w.
+  Proof. intros H. exact (HP w known H). Qed.
+
+  (* Two schedules that issue the same proper operations (everything except lookups and OTouch),
+     in the same order, with any lookups interleaved anywhere, end in worlds that give the same
+     answer to every lookup. *)
+  Theorem schedule_independent : forall its1 its2, P w0 [] -> ops_of its1 = ops_of its2 ->
+    same_answers (fst (run_sched w0 [] its1)) (fst (run_sched w0 [] its2)).
+  Proof.
+    intros its1 its2 H0 E.
+    destruct (schedule_independent_struct its1 its2 E) as [Es Ek].
+    pose proof (P_good _ _ (run_sched_inv its1 H0)) as G1.
+    pose proof (P_good _ _ (run_sched_inv its2 H0)) as G2.
+    rewrite <- Ek in G2.
+    exact (answers_struct (snd (run_sched w0 [] its1)) _ _ G1 G2 Es).
+  Qed.
+
+  (* the id-valued lookups, spelled out as in the statement of the property *)
+  Corollary schedule_independent_ids : forall its1 its2, P w0 [] -> ops_of its1 = ops_of its2 ->
+    forall f D, id_lookup f D -> forall x q, D (fst (run_sched w0 [] its1)) x ->
+      same_set (snd (f (fst (run_sched w0 [] its1)) x q)) (snd (f (fst (run_sched w0 [] its2)) x q)) /\
+      NoDup (snd (f (fst (run_sched w0 [] its1)) x q)) /\
+      NoDup (snd (f (fst (run_sched w0 [] its2)) x q)).
+  Proof. intros its1 its2 H0 E. exact (sa_ids _ _ (schedule_independent its1 its2 H0 E)). Qed.
+
+  (* the answer to a lookup does not depend on the lookups made before it: the reply of the
+     schedule with all lookups and touches erased is the same *)
+  Corollary lookups_do_not_interfere : forall its, P w0 [] ->
+    same_answers (fst (run_sched w0 [] its)) (fst (run_guarded w0 [] (ops_of its))).
+  Proof.
+    intros its H0. rewrite <- run_sched_ops.
+    apply schedule_independent; [exact H0|]. symmetry. apply ops_of_idem.
+  Qed.
+End Schedule.
+
+(* ---------- instances ---------- *)
+
+(* the initial world satisfies everything *)
+Lemma forest_w0 : Forest w0 [].
+Proof.
+  constructor.
+  - intros n. split; [discriminate|intros []].
+  - intros p c. split; [intros []|discriminate].
+  - intros p. constructor.
+  - intros p c H. discriminate H.
+  - intros a b [].
+Qed.
+
+Lemma inv_w0_all : Inv w0 [].
+Proof.
+  constructor.
+  - exact forest_w0.
+  - intros ir H. discriminate H.
+  - intros m H. discriminate H.
+  - intros n. exact I.
+  - intros n. cbn. lia.
+  - intros bi. exact I.
+Qed.
+
+Lemma good_w0 : GoodK [] w0.
+Proof. destruct inv_w0_all as [F _ _ S N _]. split; [exact F|split; [exact S|exact N]]. Qed.
+
+Lemma inv_good w known : Inv w known -> Forest w known /\ SyncAll w /\ NonNeg w.
+Proof. intros [F _ _ S N _]. auto. Qed.
+
+(* with the full invariant of InvDefs, the only thing left to plug in is its step lemma *)
+Theorem schedule_independent_Inv :
+  (forall w known o, Inv w known -> op_okb w known o = true -> Inv (step' w o) (known_after o known)) ->
+  forall its1 its2, ops_of its1 = ops_of its2 ->
+    same_answers (fst (run_sched w0 [] its1)) (fst (run_sched w0 [] its2)).
+Proof.
+  intros Hstep its1 its2 E.
+  exact (schedule_independent Inv inv_good Hstep
+           (fun w known s m kf q => query_inv known w s m kf q) its1 its2 inv_w0_all E).
+Qed.
+
+Theorem run_sched_Inv :
+  (forall w known o, Inv w known -> op_okb w known o = true -> Inv (step' w o) (known_after o known)) ->
+  forall its, Inv (fst (run_sched w0 [] its)) (snd (run_sched w0 [] its)).
+Proof.
+  intros Hstep its.
+  exact (run_sched_inv Inv Hstep (fun w known s m kf q => query_inv known w s m kf q) its inv_w0_all).
+Qed.
+
+(* with any structural invariant Q (one that does not read the trees) that implies Forest and is
+   preserved by guarded operations, SyncAll and NonNeg come from SyncProofs.sync_preserved *)
+Section StructuralInvariant.
+  Variable Q : world -> list id -> Prop.
+  Hypothesis HQF : forall w known, Q w known -> Forest w known.
+  Hypothesis HQstep : forall w known o, Q w known -> op_okb w known o = true ->
+    Q (step' w o) (known_after o known).
+  Hypothesis HQagree : forall w w' known, agree w w' -> Q w known -> Q w' known.
+
+  Definition QGood (w : world) (known : list id) : Prop := Q w known /\ SyncAll w /\ NonNeg w.
+
+  Lemma QGood_good w known : QGood w known -> Forest w known /\ SyncAll w /\ NonNeg w.
+  Proof. intros (HQ & S & N). split; [exact (HQF w known HQ)|split; [exact S|exact N]]. Qed.
+
+  Lemma QGood_step w known o : QGood w known -> op_okb w known o = true ->
+    QGood (step' w o) (known_after o known).
+  Proof.
+    intros (HQ & S & N) G. pose proof (HQstep w known o HQ G) as HQ'.
+    destruct (sync_preserved w known o (HQF _ _ HQ) (HQF _ _ HQ') S N G) as [S' N'].
+    split; [exact HQ'|split; [exact S'|exact N']].
+  Qed.
+
+  Lemma QGood_query w known s m kf q : QGood w known -> QGood (fst (query w s m kf q)) known.
+  Proof.
+    intros (HQ & S & N). destruct (query_lk w s m kf q) as [E HS].
+    split; [|split; [exact (HS S)|exact (strip_nonneg w _ E N)]].
+    apply (HQagree w); [|exact HQ]. apply strip_agree. symmetry. exact E.
+  Qed.
+
+  Theorem run_sched_QGood : forall its, Q w0 [] ->
+    QGood (fst (run_sched w0 [] its)) (snd (run_sched w0 [] its)).
+  Proof.
+    intros its H0. apply (run_sched_inv QGood QGood_step QGood_query its).
+    destruct good_w0 as (_ & S & N). split; [exact H0|split; [exact S|exact N]].
+  Qed.
+
+  Theorem schedule_independent_Q : forall its1 its2, Q w0 [] -> ops_of its1 = ops_of its2 ->
+    same_answers (fst (run_sched w0 [] its1)) (fst (run_sched w0 [] its2)).
+  Proof.
+    intros its1 its2 H0 E.
+    apply (schedule_independent QGood QGood_good QGood_step QGood_query its1 its2); [|exact E].
+    destruct good_w0 as (_ & S & N). split; [exact H0|split; [exact S|exact N]].
+  Qed.
+End StructuralInvariant.
+
+(* ================================================================== *)
+
+Print Assumptions strip_fields.
+Print Assumptions strip_agree.
+Print Assumptions sec_blocks_on_envl_exact.
+Print Assumptions sec_blocks_at_envl_exact.
+Print Assumptions sec_blocks_on_exact.
+Print Assumptions sec_blocks_at_exact.
+Print Assumptions mod_lift_exact.
+Print Assumptions ir_lift_exact.
+Print Assumptions mod_blocks_on_exact.
+Print Assumptions mod_blocks_at_exact.
+Print Assumptions ir_blocks_on_exact.
+Print Assumptions ir_blocks_at_exact.
+Print Assumptions id_lookup_exactly.
+Print Assumptions lookup_struct.
+Print Assumptions sec_extent_struct.
+Print Assumptions sections_on_struct.
+Print Assumptions sections_at_struct.
+Print Assumptions mod_sections_on_struct.
+Print Assumptions mod_sections_at_struct.
+Print Assumptions ir_sections_on_struct.
+Print Assumptions ir_sections_at_struct.
+Print Assumptions bi_symx_at_struct.
+Print Assumptions bi_symx_at_off_struct.
+Print Assumptions sec_symx_at_struct.
+Print Assumptions answers_struct.
+Print Assumptions kfilter_struct.
+Print Assumptions query_lk.
+Print Assumptions query_good.
+Print Assumptions query_inv.
+Print Assumptions run_sched_ops.
+Print Assumptions run_sched_guarded.
+Print Assumptions schedule_independent_struct.
+Print Assumptions schedule_independent_struct_gen.
+Print Assumptions run_sched_inv.
+Print Assumptions schedule_independent.
+Print Assumptions schedule_independent_ids.
+Print Assumptions lookups_do_not_interfere.
+Print Assumptions inv_w0_all.
+Print Assumptions schedule_independent_Inv.
+Print Assumptions run_sched_Inv.
+Print Assumptions run_sched_QGood.
+Print Assumptions schedule_independent_Q.
